@@ -76,7 +76,8 @@ def runHistory (pk : PublicKey) (sk : PrivateKey) (nu0 : Int) (time0 : Int) (ste
         let badk := (getNat st "badk").toOption.getD 0
         let evs := if badevents ∧ evs0.length > 0 then
             evs0.mapIdx fun i e => if i = badk % evs0.length then
-              { e with e := match (getInt st "bade").toOption with
+              { e with parentHash := e.parentHash ++ ((getBytes st "badparentappend").toOption.getD []),
+                       e := match (getInt st "bade").toOption with
                               | some v => v      -- a value of the attacker's choosing
                               | none => e.e + 2 } else e
           else evs0
